@@ -2,6 +2,8 @@ package rules
 
 import (
 	"fmt"
+	"go/token"
+	"go/types"
 	"strings"
 
 	"golang.org/x/tools/go/ssa"
@@ -18,6 +20,7 @@ func init() {
 			"ComputeGasUsedAndFeeBasedOnRefundValue, SplitTxGasInCategories, isTooMuchGasProvided and every other function of economicsData) can wrap around: each `a - b` on unsigned operands is dominated by a " +
 			"comparison establishing b ≤ a on the same expressions (or goes through a checked helper). A wrapped difference turns 'gas remaining' into a huge number and a reported gas used / fee above the limit. " +
 			"(S2) CheckValidityTxValues returns nil only past its bounds checks on gas price, gas limit (lower bound and per-block upper bound) and value. " +
+			"(S3) a value converted to *big.Int in the package is never the machine product of two runtime integer quantities (price x gas wraps modulo 2^64, making fees non-monotone). (S4) the raw gasPriceModifier field is read only behind a test of its activation flag. " +
 			"Not decided (value-level): the inequalities between the fee formulas themselves (big-int arithmetic).",
 		Run: runC21,
 	})
@@ -44,6 +47,8 @@ func runC21(c *core.Ctx) {
 		}
 	}
 	c.Floor("C21/unsigned-sub-guarded", 3)
+	c21BigProducts(c)
+	c21GatedModifier(c)
 
 	if fn := anchorM(c, pkg, "economicsData", "CheckValidityTxValues"); fn != nil {
 		type want struct{ name, a, b string }
@@ -96,4 +101,100 @@ func runC21(c *core.Ctx) {
 		c.Floor("C21/validity-checks-precede-accept", 4)
 	}
 	_ = ssa.Value(nil)
+}
+
+// c21BigProducts: a fee is a product of two runtime 64-bit quantities (price x gas); a value
+// converted into a *big.Int must not come out of a machine multiplication of two runtime
+// operands, which wraps modulo 2^64 and makes a larger gas limit cheaper than a smaller one.
+func c21BigProducts(c *core.Ctx) {
+	const pkg = "process/economics"
+	n := 0
+	for _, fn := range c.P.FuncsOfPkg(pkg) {
+		k := 0
+		core.Instrs(fn, func(in ssa.Instruction) {
+			call, ok := in.(*ssa.Call)
+			if !ok || call.Call.StaticCallee() == nil {
+				return
+			}
+			callee := call.Call.StaticCallee()
+			if callee.Pkg == nil || callee.Pkg.Pkg.Path() != "math/big" {
+				return
+			}
+			if callee.Name() != "SetUint64" && callee.Name() != "SetInt64" && callee.Name() != "NewInt" {
+				return
+			}
+			arg := call.Call.Args[len(call.Call.Args)-1]
+			if _, isC := arg.(*ssa.Const); isC {
+				return
+			}
+			k++
+			n++
+			c.Analysed(core.QualName(fn))
+			bad := ""
+			for x := range core.BackwardReachPure(arg) {
+				bo, ok := x.(*ssa.BinOp)
+				if !ok || bo.Op != token.MUL {
+					continue
+				}
+				if b, isB := bo.Type().Underlying().(*types.Basic); !isB || b.Info()&types.IsInteger == 0 {
+					continue
+				}
+				_, cx := bo.X.(*ssa.Const)
+				_, cy := bo.Y.(*ssa.Const)
+				if !cx && !cy {
+					bad = core.ExprKey(bo) + " at " + c.P.Pos(bo.Pos())
+				}
+			}
+			c.Check(bad == "", "C21/fee-products-in-big-arithmetic", fmt.Sprintf("%s/%s#%d", fname(fn), callee.Name(), k), call.Pos(),
+				"the value converted to big.Int is not a machine product of two runtime quantities",
+				"the value converted to big.Int is the machine product "+bad+" of two runtime 64-bit quantities: it wraps modulo 2^64, so the fee for a larger gas amount can be smaller than for a smaller one")
+		})
+	}
+	c.Floor("C21/fee-products-in-big-arithmetic", 3)
+}
+
+// c21GatedModifier: the configured gas price modifier takes effect only from its activation
+// epoch; the raw field may be read only by the accessor that tests the activation flag.
+func c21GatedModifier(c *core.Ctx) {
+	const pkg = "process/economics"
+	field := c.P.Field(pkg, "economicsData", "gasPriceModifier")
+	gate := c.P.Field(pkg, "economicsData", "flagGasPriceModifier")
+	if field == nil || gate == nil {
+		c.Undecided("anchor", "economicsData.gasPriceModifier", token.NoPos, "field or its activation flag not found")
+		return
+	}
+	n := 0
+	for _, fn := range c.P.FuncsOfPkg(pkg) {
+		k := 0
+		core.Instrs(fn, func(in ssa.Instruction) {
+			u, ok := in.(*ssa.UnOp)
+			if !ok || u.Op != token.MUL {
+				return
+			}
+			fa, ok := u.X.(*ssa.FieldAddr)
+			if !ok || core.FieldOfAddr(fa) != field {
+				return
+			}
+			k++
+			n++
+			c.Analysed(core.QualName(fn))
+			// the read is dominated by a test of the activation flag
+			gated := false
+			for _, cd := range core.CondsAt(u.Block()) {
+				for x := range core.BackwardReachPure(cd.V) {
+					if call, isCall := x.(*ssa.Call); isCall && len(call.Call.Args) > 0 {
+						if fa2, isFA := call.Call.Args[0].(*ssa.FieldAddr); isFA && core.FieldOfAddr(fa2) == gate {
+							gated = true
+						}
+					}
+				}
+			}
+			c.Check(gated, "C21/modifier-read-behind-activation-flag", fmt.Sprintf("%s/read#%d", fname(fn), k), u.Pos(),
+				"the raw modifier is read only after the activation flag was tested",
+				"economicsData.gasPriceModifier is read without testing flagGasPriceModifier: before the activation epoch the processing fee is computed with the discounted price while the full fee is charged, so gas used and fees derived from a refund exceed the limit")
+		})
+	}
+	if n == 0 {
+		c.Undecided("C21/modifier-read-behind-activation-flag", "economicsData.gasPriceModifier", token.NoPos, "no read of the field found")
+	}
 }
